@@ -47,6 +47,7 @@ type guardTr struct {
 	guards   []string    // conditions of error returns
 	exits    []string    // conditions of early returns that are not errors
 	skips    []string    // conditions under which a loop iteration is skipped (`continue`)
+	breaks   []string    // conditions under which a loop is left (`break`)
 	loops    []string    // loop conditions
 	cases    []valueCase // Boolean functions: condition -> returned literal, in source order
 	deflt    string      // Boolean functions: the final return
@@ -351,6 +352,9 @@ func (tr *guardTr) walk(b *ast.BlockStmt, path string, top bool) {
 			if s.Tok == token.CONTINUE && !top {
 				tr.skips = append(tr.skips, path)
 			}
+			if s.Tok == token.BREAK && !top {
+				tr.breaks = append(tr.breaks, path)
+			}
 		case *ast.ReturnStmt:
 			if top {
 				if tr.boolFunc && len(s.Results) == 1 {
@@ -459,6 +463,9 @@ func genGuardFile(file string, sites []guardSite) {
 		}
 		if len(tr.skips) > 0 {
 			fmt.Fprintf(&sb, "/-- the conditions under which a loop iteration is skipped -/\ndef %s_skips%s : List Bool := %s\n\n", s.Name, params, leanBoolList(tr.skips))
+		}
+		if len(tr.breaks) > 0 {
+			fmt.Fprintf(&sb, "/-- the conditions under which a loop is left -/\ndef %s_breaks%s : List Bool := %s\n\n", s.Name, params, leanBoolList(tr.breaks))
 		}
 		if len(tr.loops) > 0 {
 			fmt.Fprintf(&sb, "/-- its loop conditions -/\ndef %s_loops%s : List Bool := %s\n\n", s.Name, params, leanBoolList(tr.loops))
